@@ -118,8 +118,10 @@ def run_block(case, drv):
     M = LinearOperatorMatrix([[mrpro.operators.EinsumOp(m.to(torch.float32)) for m in row] for row in mats])
     D = torch.cat([torch.cat(row, dim=1) for row in mats], dim=0)
     true = float(torch.linalg.svdvals(D)[0])
-    vs = [int_tensor(rng, (n,), complex_=False, lo=1, hi=3).to(torch.float32) for _ in range(c)]
-    st, val = call(lambda: M.operator_norm(*vs, max_iterations=200, relative_tolerance=0.0, absolute_tolerance=0.0))
+    # generic start vectors (the property's convergence clause is for generic starts: small integer vectors can be exactly
+    # orthogonal to the dominant singular vector of a small integer matrix, e.g. (1,1) for [[a,b],[b,a]]) and enough iterations
+    vs = [torch.tensor([rng.uniform(0.5, 1.5) * rng.choice([-1, 1]) for _ in range(n)], dtype=torch.float32) for _ in range(c)]
+    st, val = call(lambda: M.operator_norm(*vs, max_iterations=1000, relative_tolerance=0.0, absolute_tolerance=0.0))
     viol = None
     if st != 'ok':
         viol = {'signature': 'block:raises', 'what': f'LinearOperatorMatrix.operator_norm raises {val}'}
